@@ -3,7 +3,7 @@
 # Confirms in a scratch worktree of /repo HEAD: demo passes without the change, fails with it, and the
 # repository's test suite still passes with the change. Copies patch/demo/meta to <out-dir>.
 set -u
-SD=$1; K=$2; OUT=$3
+SD=$1; K=$2; OUT=$3; DEMOFILTER=${4:-}
 export RUSTUP_TOOLCHAIN=1.88.0 CARGO_NET_OFFLINE=true
 WT=/tmp/val-$(basename $SD)-$K
 git -C /repo worktree remove --force $WT 2>/dev/null
@@ -17,7 +17,8 @@ TESTS=$(grep -E '^\+.*fn [a-zA-Z0-9_]+\(' $SD/demo$K.diff | grep -B0 -E 'fn ' | 
 FILTER=$(grep -A3 -E '^\+\s*#\[(tokio::)?test' $SD/demo$K.diff | grep -E 'fn ' | sed -E 's/.*fn ([a-zA-Z0-9_]+)\(.*/\1/' | head -1)
 [ -z "$FILTER" ] && FILTER=$(echo "$TESTS" | head -1)
 NEWFILE=$(grep -E '^\+\+\+ b/tests/' $SD/demo$K.diff | sed -E 's#^\+\+\+ b/tests/(.*)\.rs#\1#' | head -1)
-if [ -n "$NEWFILE" ]; then CMD="cargo test --offline -p ethercrab --test $NEWFILE"; else CMD="cargo test --offline -p ethercrab --lib $FILTER"; fi
+[ -n "$DEMOFILTER" ] && FILTER=$DEMOFILTER
+if [ -n "$NEWFILE" ] && [ -z "$DEMOFILTER" ]; then CMD="cargo test --offline -p ethercrab --test $NEWFILE"; else CMD="cargo test --offline -p ethercrab --lib $FILTER"; fi
 echo "demo command: $CMD"
 $CMD > $WT/demo_without.txt 2>&1; RC0=$?
 git apply $SD/patch$K.diff
@@ -28,13 +29,15 @@ git checkout -- . ; git clean -fdq -- tests src 2>/dev/null
 git apply $SD/patch$K.diff
 cargo nextest run --workspace --no-fail-fast --offline --retries 12 --test-threads 4 > $WT/suite.txt 2>&1; RCS=$?
 SUM=$(grep -E "Summary|tests run" $WT/suite.txt | tail -1)
-FAILED=$(grep -E "^\s+FAIL " $WT/suite.txt | sed -E 's/.*FAIL \[[^]]*\] +//' | sort -u | tr '\n' ' ')
+FAILED=$(sed -n '/Summary \[/,$p' $WT/suite.txt | grep -E "^\s+(FAIL|TIMEOUT|SIGABRT|SIGSEGV|ABORT)" | sed -E 's/.*\] +//' | awk '{print $NF}' | sort -u | tr '\n' ' ')
+[ $RCS -ne 0 ] && [ -z "$FAILED" ] && FAILED="unparsed-failure"
 # a failure that is only the known timing-sensitive set (fails on the unchanged tree under load too) does not count
 REAL=$(echo "$FAILED" | tr ' ' '\n' | grep -v -E "replay_|large_group_frame_split|^$" | tr '\n' ' ')
 if [ $RCS -ne 0 ] && [ -z "$REAL" ]; then echo "suite failures are timing-only: $FAILED"; RCS=0; SUM="$SUM (timing-only failures: $FAILED)"; fi
 echo "suite with change rc=$RCS : $SUM"
 mkdir -p $OUT
 cp $SD/patch$K.diff $OUT/patch.diff; cp $SD/demo$K.diff $OUT/demo.diff; cp $SD/notes$K.md $OUT/notes.md 2>/dev/null
+sed -n '/Summary \[/,$p' $WT/suite.txt | head -30 > $OUT/suite_summary.txt
 tail -15 $WT/demo_with.txt > $OUT/demo_with_change.txt; tail -5 $WT/demo_without.txt > $OUT/demo_without_change.txt
 echo "{\"demo_cmd\": \"$CMD\", \"demo_rc_without_change\": $RC0, \"demo_rc_with_change\": $RC1, \"suite_rc_with_change\": $RCS, \"suite_summary\": \"$SUM\"}" > $OUT/validation.json
 cd /; git -C /repo worktree remove --force $WT
